@@ -151,8 +151,10 @@ def differential(chk, fns_list, tag, kind="hooked", fuel=FUEL):
     """run every program on both sides; report disagreements; returns (records, counts)"""
     def split(p):
         return (p, None) if isinstance(p, list) else p
-    sxs = [lg.prog_sx(*split(f)) for f in fns_list]
-    srcs = [lg.prog_src(*split(f)) for f in fns_list]
+    # a program is a function list, (functions, classes), or (functions, classes, source) when the source is not
+    # a rendering of the model's classes (generic templates are declared once, the model gets one class per instantiation)
+    sxs = [lg.prog_sx(*split(f)[:2]) for f in fns_list]
+    srcs = [split(f)[2] if len(split(f)) == 3 else lg.prog_src(*split(f)) for f in fns_list]
     models = run_model(sxs, fuel)
     impls = run_impl(srcs, kind)
     counts = {}
